@@ -7,10 +7,10 @@ BASELINE_OFF = "cd /repo && go test -mod=mod -json -vet=off -count=1 -timeout 25
 
 # id -> (technique, level text, design ref, level note)
 CLAIMED = {
- "C05": ("decision-table extraction from SSA paths (transition, step, fireTransition, emit) compared cell-by-cell with the E37 table, state writes read through the function supervisor.State applies to the raw word (extracted on every run); who-may-write enumeration of supervisor.state; post-close value set of the word versus the old value of every commit CAS; dominance ordering in Close",
+ "C05": ("decision-table extraction from SSA paths (transition, step, fireTransition, emit) compared cell-by-cell with the E37 table, state writes read through the function supervisor.State applies to the raw word (extracted on every run); who-may-write enumeration of supervisor.state; post-close value set of the word versus the old value of every commit CAS; dominance ordering in Close; T7 start/stop lifecycle table",
          "Structural necessary conditions of the E37 state behaviour decided for every path/writer in the source: the full transition and step decision tables, the complete writer set of the state word, what State() reports for every word the code can store, that no write outside the event loop can succeed once the close event has been handled, the notification chain's single-sender/ordering shape and Close's fence→requestClose→wait→stop ordering. Does not decide interleavings or timing.",
          "§4 C05"),
- "C07": ("path enumeration of every send entry point with gate-decision/effect linearisation; who-may-call/send/receive chokepoint enumeration; dispatchFrame decision table (data arm); dominance of the synchronous Selected commit",
+ "C07": ("path enumeration of every send entry point with gate-decision/effect linearisation; who-may-call/send/receive chokepoint enumeration; dispatchFrame decision table (data arm); dominance of the synchronous Selected commit; receive-loop start dominated by the TCP-up commit",
          "Decides for every path of sendWaitReply/sendNoReply/SendAsync/writeFrame that each write/enqueue follows a 'not data' or 'Selected' decision and a live-epoch decision, that the refusing branch returns the not-selected error after exactly one counted drop and no effect, that bytes can reach a socket only through those chokepoints, and the inbound not-selected reject table and commit-before-response ordering. Histories leading to not-selected and State() accuracy are not decided here.",
          "§4 C07"),
  "C08": ("decision-table extraction (dispatchFrame classifier, responders, sendReject, runSelectProcedure, checkSessionID) compared with an E37 oracle on every cell; byte-map (layout) extraction of the control-message factories; accept-loop value-flow",
@@ -22,19 +22,19 @@ CLAIMED = {
  "C09": ("epoch-pinning enumeration (loads of the current generation per function), value-flow of the socket from the epoch parameter to the transport call, who-may-write on per-generation fields, select-case tables of SendAsync/transport.Write, teardown order, reconnect-loop iteration table",
          "Decides that nothing in the source can carry a frame or a reply across generations: one pinned epoch per function, queue/registry/context created only by newEpoch, writes bound to the pinned epoch's socket under its lock, transports writing only to the socket they are handed, waiters released by the pinned generation's context, and generations serialised by the reconnect loop. Drop instants versus in-flight sends (schedules) are not decided.",
          "§4 C09"),
- "C10": ("goroutine launch/join matching (Add-before-go, defer Done, Wait sites), bounded-join recognition, lock pairing and held-region scan for blocking operations, close-once classification of every close(), Open/Close guard path analysis, panic-surface enumeration",
+ "C10": ("goroutine launch/join matching (Add-before-go, defer Done, Wait sites), bounded-join recognition, lock pairing and held-region scan for blocking operations, close-once classification of every close(), Open/Close guard path analysis, panic-surface enumeration, late-socket close on the closed-after-dial path",
          "Decides for every goroutine launch, WaitGroup.Wait, mutex acquisition, close() and panic site in the connection/transport packages that it follows the join / bounded-teardown / once-guard discipline that Close's guarantees rest on, and that the double-open and never-opened guards precede every side effect. Wall-clock bounds and actual leak freedom over histories are not decided.",
          "§4 C10"),
- "C11": ("decision tables of nextBackoffDelay, WithReconnectBackoff, react, one connectLoop iteration and one recvLoop iteration; dominance of TCPDown on write errors; call-site enumeration of the reconnect counter",
+ "C11": ("decision tables of nextBackoffDelay, WithReconnectBackoff, react, one connectLoop iteration and one recvLoop iteration; dominance of TCPDown on write errors; call-site enumeration of the reconnect counter; T8 read-deadline policy of the in-frame read",
          "Decides the backoff arithmetic's branch structure (cap at T5, never ≤ 0, initial value, advance only through nextBackoffDelay), that every involuntary failure funnels into TCPDown exactly once unless teardown already owns the generation, that the reaction starts the reconnect loop before teardown iff not shut down, and the fence/publish/retry shape of the loop. Actual re-establishment against a peer and real-time delays are not decided.",
          "§4 C11"),
  "C20": ("who-may-call enumeration of every metric helper, ±1 body check, gauge inc/defer-dec pairing with dominance conditions, path-exact counting of incDataMsgSend, per-outcome counter decision tables of sendWaitReply/sendNoReply/drainSendCh/isCountedSendErr",
          "Decides that each counter/gauge is modified only at its documented chokepoint by exactly ±1, that gauges are paired with a deferred decrement on every exit, that the sent counter is bumped on exactly the paths where the transport accepted a data frame, and the documented counter set for every send outcome cell. Agreement with the peer's own counts over histories is not decided.",
          "§4 C20"),
- "C19": ("decision tables of the two pure linktest reducers and of one full iteration of the probe loop (loop-carried values included) against an oracle written from the suppression rules; option-validation tables",
+ "C19": ("decision tables of the two pure linktest reducers and of one full iteration of the probe loop (loop-carried values included) against an oracle written from the suppression rules; option-validation tables; activity-stamp call-site enumeration",
          "Decides every ordering cell of the failure reducer and the pre-disconnect re-check, and the complete per-iteration behaviour of the probe loop: skip rules, probe, success reset, failure accounting with argument roles and fresh re-reads, threshold comparison, TCPDown, and what is carried to the next iteration. Real-time durations and accepted stamp races are not decided.",
          "§4 C19"),
- "C02": ("bounds/size/divisor obligations over the decode fragment decided by linear integer arithmetic (Fourier–Motzkin) on SSA values, with pre/postconditions, loop-phi invariants and slab invariants inferred inductively (Houdini); grammar-rejection facts proved at every success exit; recursion-cycle depth-parameter analysis; entry-point argument comparison",
+ "C02": ("bounds/size/divisor obligations over the decode fragment decided by linear integer arithmetic (Fourier–Motzkin) on SSA values, with pre/postconditions, loop-phi invariants and slab invariants inferred inductively (Houdini); grammar-rejection facts proved at every success exit; recursion-cycle depth-parameter analysis; entry-point argument comparison; no-integer-wrap proof of every signed 64-bit + − × in the fragment (|result| ≤ 2^60 given buffers ≤ 2^40 bytes)",
          "Decides that every index, slice, binary.BigEndian read, divisor and allocation size reachable from Decode/DecodeOwned is in range / bounded by the input length for every input (so no bounds-check panic and no allocation driven by a claimed length), that every success exit of the decoders has rejected zero length-byte count, truncated header/payload, non-multiple payloads, short localized strings, undefined codes and over-deep nesting, that the recursion is depth-bounded, and that the copying and owning entry points run the same decoder. Does not decide the decoded values or re-encode equality.",
          "§4 C02"),
  "C01": ("constant and decision-table comparison of the format-code / width tables with SEMI E5; bit-provenance evaluation of the item header bytes on every path of appendHeaderBytesFC and cell table of headerLen; width-fact analysis of every encoding/binary operation and conversion-chain analysis of sign extension; term comparison of the length written by AppendTo with the length EncodedLen sizes; path analysis of the errored/raw guards; linear-arithmetic proof of the retained raw slice bounds; admission analysis of NewListItem",
@@ -64,7 +64,7 @@ CLAIMED = {
  "C18": ("iteration table of the sendBlock retry loop with the loop-carried retry counter (enum-infeasible paths pruned); path table of receiveBlock's handshake per failure class; value-flow of the generation's single inbound sink to the idle path and every send; who-may-call enumeration of the line I/O methods; field-update analysis of the duplicate record",
          "Decides structural necessary conditions of exactly-once delivery over a faulty line: at most retryLimit+1 attempts per block with the counter advanced on every failed attempt and reset only after a yielded block was received and delivered, ErrSendFailed on exhaustion; NAK (after silence where framing was lost) or ACK on every receive path and no block returned on failure; one assembler feed per generation shared by idle and contention-yield receives; the line driven only by the line engine; the duplicate record surviving message completion. Exactly-once, ordering and deadlock freedom under fault patterns are runtime behaviour and are not decided.",
          "§4 C18"),
- "C14": ("bounds/size obligations over the parse fragment decided by linear integer arithmetic on SSA values with inductively inferred contracts and Parser field invariants (data = input[pos:], len = len(input), 0 ≤ pos ≤ len); recursion-cycle depth-parameter analysis; provenance of every ParseError offset and decision table of the line/column scan; who-may-write enumeration of package variables and Parser/Encoder fields",
+ "C14": ("bounds/size obligations over the parse fragment decided by linear integer arithmetic on SSA values with inductively inferred contracts and Parser field invariants (data = input[pos:], len = len(input), 0 ≤ pos ≤ len); recursion-cycle depth-parameter analysis; provenance of every ParseError offset and decision table of the line/column scan; who-may-write enumeration of package variables and Parser/Encoder fields; no-integer-wrap proof of every signed 64-bit + − × in the fragment (|result| ≤ 2^60 given buffers ≤ 2^40 bytes)",
          "Decides that every index/slice of the scan window, every forward/backward step and every allocation size (make, Builder.Grow) reachable from the Parse entry points is in range / bounded by the unread input for every text, that list nesting is depth-bounded before recursion, that every syntax error's offset is a parser position clamped to len(input) with line/column derived from exactly that prefix, and that parser/encoder instances share no mutable state. Does not decide running time or messages' values.",
          "§4 C14"),
 }
